@@ -85,13 +85,17 @@ def kkTensor [LT α] [DecidableRel (α := α) (· < ·)] (G qc : V3 α) (dir : O
     | some d => fun a b => d a * d b / dielectricPart d eps
   else fun a b => K a * K b / dielectricPart K eps * expv
 
-/-- `get_dd`: `Σ_G KK[G] · exp(2πi (x_i − x_j)·G)`; `ph g i j` is that phase factor. -/
+/-- second loop of `get_dd` (`get_dd_at_g`): `Σ_G KK[G] · exp(2πi (x_i − x_j)·G)`;
+`ph g i j` is that phase factor. -/
+def getDDOf {np nG : Nat} (KK : Fin nG → T3 α) (ph : Fin nG → Fin np → Fin np → Cx α) : DM np α :=
+  fun i a j b =>
+    ⟨sumFin nG fun g => KK g a b * (ph g i j).re, sumFin nG fun g => KK g a b * (ph g i j).im⟩
+
+/-- `get_dd` -/
 def getDD [LT α] [DecidableRel (α := α) (· < ·)] {np nG : Nat} (G : Fin nG → V3 α) (qc : V3 α)
     (dir : Option (V3 α)) (eps : T3 α) (tolSq : α) (expv : Fin nG → α)
     (ph : Fin nG → Fin np → Fin np → Cx α) : DM np α :=
-  fun i a j b =>
-    ⟨sumFin nG fun g => kkTensor (G g) qc dir eps tolSq (expv g) a b * (ph g i j).re,
-     sumFin nG fun g => kkTensor (G g) qc dir eps tolSq (expv g) a b * (ph g i j).im⟩
+  getDDOf (fun g => kkTensor (G g) qc dir eps tolSq (expv g)) ph
 
 /-- `multiply_borns`: `dd[i a, j b] = Σ_{a' b'} dd_in[i a', j b'] Z_i[a'][a] Z_j[b'][b]` -/
 def multiplyBorns {np : Nat} (born : Fin np → T3 α) (dd : DM np α) : DM np α :=
@@ -149,13 +153,15 @@ def recipDDF [LT α] [DecidableRel (α := α) (· < ·)] {np nG : Nat} (G : Fin 
     (dir : Option (V3 α)) (eps : T3 α) (born : Fin np → T3 α) (tolSq : α) (expv : Fin nG → α)
     (ph : Fin nG → Fin np → Fin np → Cx α) (ddq0 : Fin np → Fin 3 → Fin 3 → Cx α) (factor : α) :
     Frozen4 (Cx α) :=
-  let A : Frozen4 (Cx α) := freeze4 (getDD G qc dir eps tolSq expv ph)
+  let KK : Frozen4 α := freeze4 (fun g a b (_ : Fin 1) => kkTensor (G g) qc dir eps tolSq (expv g) a b)
+  let A : Frozen4 (Cx α) := freeze4 (getDDOf (nG := nG) (fun g a b => thaw4 (d := 1) KK g a b 0) ph)
   freeze4 (recipDDOf (np := np) (thaw4 A) born ddq0 factor)
 
 def ddQ0F [LT α] [DecidableRel (α := α) (· < ·)] {np nG : Nat} (G : Fin nG → V3 α) (eps : T3 α)
     (born : Fin np → T3 α) (tolSq : α) (expv : Fin nG → α) (ph : Fin nG → Fin np → Fin np → Cx α) :
     Frozen4 (Cx α) :=
-  let A : Frozen4 (Cx α) := freeze4 (getDD G (fun _ => 0) none eps tolSq expv ph)
+  let KK : Frozen4 α := freeze4 (fun g a b (_ : Fin 1) => kkTensor (G g) (fun _ => 0) none eps tolSq (expv g) a b)
+  let A : Frozen4 (Cx α) := freeze4 (getDDOf (nG := nG) (fun g a b => thaw4 (d := 1) KK g a b 0) ph)
   let B : Frozen4 (Cx α) := freeze4 (multiplyBorns (np := np) born (thaw4 A))
   freeze4 (fun i a b (_ : Fin 1) => ddQ0Of (np := np) (thaw4 B) i a b)
 
@@ -196,9 +202,10 @@ closed under composition with consistent atom maps — `r` and `perm` of the com
 are found in the list. -/
 def groupWf {n ng : Nat} (r : Fin ng → C06.Mat3) (perm : Fin ng → Fin n → Fin n) : Bool :=
   decide (0 < ng) &&
-  (List.finRange ng).all (fun g => (List.finRange ng).all fun h => (List.finRange ng).any fun gh =>
-    r gh == C06.matMul (r g) (r h) &&
-    (List.finRange n).all fun i => perm gh i == perm h (perm g i)) &&
+  (List.finRange ng).all (fun g => (List.finRange ng).all fun h =>
+    let m := C06.matMul (r g) (r h)
+    (List.finRange ng).any fun gh =>
+      r gh == m && (List.finRange n).all fun i => perm gh i == perm h (perm g i)) &&
   (List.finRange ng).all (fun g => (List.finRange n).all fun i => (List.finRange n).all fun j =>
     (perm g i != perm g j) || i == j)
 
